@@ -24,6 +24,7 @@ CONSTANTS Mode,        \* "blocker": add_filter/optimize available; "engine": se
           InitSet,     \* "full" | "notagblock" (no tagged blocking rule in the list)
           Ops,         \* "all" | "tags" (only tag assignment, discard and query: deeper histories)
                        \* | "res" (resources, serialize/deserialize) | "radd" (resources and add_filter)
+                       \* | "all5" (as "all" with three addable rules)
                        \* | "res" (resource loading, save/load, discard and query; InitSet "res")
           Export
 
@@ -217,7 +218,7 @@ Deserialize ==
 
 \* a load that is refused (a truncated image) leaves rules, tags and cache alone
 BadLoad ==
-  /\ Mode = "engine" /\ Ops = "all" /\ Len(hist) < Depth - 1
+  /\ Mode = "engine" /\ Ops \in {"all", "all5"} /\ Len(hist) < Depth - 1
   /\ UNCHANGED <<rules, tags, blob, heap, cache, store>> /\ Op([op |-> "badload", now |-> tags])
 
 \* a query compiles (and caches) the regex of every regex rule of the tagged list it consults
@@ -249,9 +250,11 @@ Init == /\ store = <<>> /\ rules = InitRules /\ tags = {} /\ blob = <<>> /\ hist
 Next == \/ (Ops \notin {"res", "radd"} /\ \E S \in TagSets : UseTags(S))
         \/ (\E sq \in UseChoices : UseResources(sq)) \/ (\E i \in DOMAIN ResPool : AddResource(i))
         \/ (Ops = "res" /\ (Serialize \/ Deserialize))
-        \/ (Ops = "all" /\ \E t \in {"t1", "t2"} : EnableTags({t}) \/ DisableTags({t}))
+        \/ (Ops \in {"all", "all5"} /\ \E t \in {"t1", "t2"} : EnableTags({t}) \/ DisableTags({t}))
         \/ (Ops \in {"all", "radd"} /\ \E i \in Addable \cup ReAddable : AddFilter(i))
-        \/ (Ops = "all" /\ (Optimize \/ Serialize \/ Deserialize \/ BadLoad))
+        \/ (Ops \in {"all", "all5"} /\ (Optimize \/ Serialize \/ Deserialize \/ BadLoad))
+        \* "all5": every operation, but only three of the addable rules (deeper histories at the same cost)
+        \/ (Ops = "all5" /\ \E i \in (Addable \cap {9, 12, 14}) \cup ReAddable : AddFilter(i))
         \/ Discard \/ Query
 
 --------------------------------------------------------------------------
